@@ -1,11 +1,14 @@
 #!/bin/bash
-# run every seeded change against the check of its property; writes seeded/MATRIX.txt
+# run every seeded change against the check(s) of its property; appends to seeded/MATRIX.txt (skips entries already there)
 cd /verif
 out=seeded/MATRIX.txt
-: > $out
-for d in seeded/C*-[ab]; do
-  id=$(basename $d); prop=${id%%-*}
-  res=$(timeout 3000 python3 tools/seedtest.py $d --no-verify --props $prop 2>&1 | grep -o 'VIOLATION[^"]*\|OK property[^"]*' | head -1)
+touch $out
+for d in seeded/C*-[a-d] seeded/fixrevert-*; do
+  [ -f $d/patch.diff ] || continue
+  id=$(basename $d)
+  grep -q "^$id " $out && continue
+  prop=$(python3 -c "import json;print(json.load(open('$d/meta.json'))['property'].replace('/',','))" 2>/dev/null || echo ${id%%-*})
+  res=$(timeout 3000 python3 tools/seedtest.py $d --no-verify --props $prop 2>&1 | grep -o 'VIOLATION[^"]*\|OK property[^"]*' | tr '\n' ';')
   echo "$id $prop :: $res" | tee -a $out
 done
 git -C /repo status --short
